@@ -26,18 +26,18 @@ REL=${DEMODIR#$(realpath --relative-to=$WT $MOD)/}; [ "$MOD" = "$WT" ] && REL=$D
 RUNPAT=$(grep -o 'func Test[A-Za-z0-9_]*' $SRC/demo_test.go | sed 's/func //' | paste -sd'|')
 cp $SRC/demo_test.go $WT/$DEMODIR/zz_seed_demo_test.go
 echo "== demo on unchanged tree (must pass)"
-(cd $MOD && go test $RACE -vet=off -count=1 -timeout 900s -run "^($RUNPAT)\$" ./$REL/ 2>&1 | tail -3); BASE=${PIPESTATUS[0]}
+(cd $MOD && go test $RACE -vet=off -count=1 -timeout 900s -run "^($RUNPAT)\$" ./$REL/ > /tmp/wt/$ID.demo.out 2>&1); BASE=$?; tail -3 /tmp/wt/$ID.demo.out
 git -C $WT apply $SRC/patch.diff || { echo "PATCH DOES NOT APPLY"; rm -f $WT/$DEMODIR/zz_seed_demo_test.go; exit 3; }
 echo "== build + demo with change (must fail)"
 (cd $MOD && go build ./... 2>&1 | tail -3)
-(cd $MOD && go test $RACE -vet=off -count=1 -timeout 900s -run "^($RUNPAT)\$" ./$REL/ 2>&1 | grep -E "^(--- FAIL|FAIL|ok|panic)" | head -5); WITH=${PIPESTATUS[0]}
+(cd $MOD && go test $RACE -vet=off -count=1 -timeout 900s -run "^($RUNPAT)\$" ./$REL/ > /tmp/wt/$ID.demo.out 2>&1); WITH=$?; grep -E "^(--- FAIL|FAIL|ok|panic)" /tmp/wt/$ID.demo.out | head -5
 rm -f $WT/$DEMODIR/zz_seed_demo_test.go
 echo "== existing tests of the touched packages with change (must pass)"
 EXIST=0
 for F in $(git -C $WT diff --name-only | xargs -n1 dirname | sort -u); do
   M=$WT; R=$F
   case $F in addons/processors/*) M=$WT/$(echo $F | cut -d/ -f1-3); R=${F#$(echo $F | cut -d/ -f1-3)/};; esac
-  (cd $M && go test -vet=off -count=1 -timeout 1500s ./$R/ 2>&1 | tail -2); [ ${PIPESTATUS[0]} -eq 0 ] || EXIST=1
+  (cd $M && go test -vet=off -count=1 -timeout 1500s ./$R/ > /tmp/wt/$ID.exist.out 2>&1) || EXIST=1; tail -2 /tmp/wt/$ID.exist.out
 done
 echo "base=$BASE with=$WITH existing=$EXIST"
 RES=""
